@@ -46,14 +46,20 @@ static int replyConnection(void *ptr, const MPT_STRUCT(reply_data) *rd, const MP
 	return mpt_outdata_reply(&con->out, rd->len, rd->val, msg);
 }
 /* processed datagram is no part of the next outgoing message */
-static int datagramDone(MPT_STRUCT(connection) *con, int ret)
+static int datagramDone(MPT_STRUCT(connection) *con, MPT_STRUCT(array) *in, int ret)
 {
-	MPT_STRUCT(buffer) *buf;
-	if ((buf = con->out.buf._buf)
-	    && !(con->out.state & MPT_OUTFLAG(Active))
-	    && buf->_used > con->out._smax) {
+	MPT_STRUCT(buffer) *buf = in->_buf;
+	/* handlers composed a message of their own: input storage is not needed any more */
+	if (con->out.buf._buf) {
+		mpt_array_clone(in, 0);
+		return ret;
+	}
+	/* reuse input storage for next datagram */
+	if (buf->_used > con->out._smax) {
 		buf->_used = con->out._smax;
 	}
+	con->out.buf._buf = buf;
+	in->_buf = 0;
 	return ret;
 }
 int streamWrapper(void *ptr, const MPT_STRUCT(message) *msg)
@@ -182,6 +188,7 @@ extern int mpt_connection_dispatch(MPT_STRUCT(connection) *con, MPT_TYPE(event_h
 	MPT_STRUCT(buffer) *buf;
 	MPT_STRUCT(event) ev = MPT_EVENT_INIT;
 	MPT_STRUCT(message) msg = MPT_MESSAGE_INIT;
+	MPT_STRUCT(array) in = MPT_ARRAY_INIT;
 	uint8_t *data;
 	uint16_t hlen;
 	uint8_t ilen, slen;
@@ -211,6 +218,10 @@ extern int mpt_connection_dispatch(MPT_STRUCT(connection) *con, MPT_TYPE(event_h
 	if (!(buf = con->out.buf._buf)) {
 		return cmd ? cmd(arg, &ev) : 0;
 	}
+	/* handlers may compose new messages: input data is kept apart from output buffer */
+	in._buf = buf;
+	con->out.buf._buf = 0;
+	
 	ilen = con->out._idlen;
 	slen = con->out._smax;
 	hlen = ilen + slen;
@@ -218,13 +229,13 @@ extern int mpt_connection_dispatch(MPT_STRUCT(connection) *con, MPT_TYPE(event_h
 	if ((size_t) hlen > buf->_used) {
 		mpt_log(0, _func, MPT_LOG(Error), "%s (%u < %u)", MPT_tr("datagram too small"), hlen, (int) buf->_used);
 		mpt_outdata_reply(&con->out, slen, buf + 1, 0);
-		return datagramDone(con, MPT_ERROR(BadValue));
+		return datagramDone(con, &in, MPT_ERROR(BadValue));
 	}
 	/* discard existing message */
 	if (!cmd) {
-		buf->_used = 0;
 		mpt_outdata_reply(&con->out, hlen, buf + 1, 0);
-		return 0;
+		buf->_used = 0;
+		return datagramDone(con, &in, 0);
 	}
 	data = (void *) (buf + 1);
 	/* no message id */
@@ -233,7 +244,7 @@ extern int mpt_connection_dispatch(MPT_STRUCT(connection) *con, MPT_TYPE(event_h
 		msg.base = data + hlen;
 		msg.used = buf->_used - hlen;
 		ev.msg = &msg;
-		return datagramDone(con, cmd(arg, &ev));
+		return datagramDone(con, &in, cmd(arg, &ev));
 	}
 	/* got reply message */
 	if (data[0] & 0x80) {
@@ -246,13 +257,12 @@ extern int mpt_connection_dispatch(MPT_STRUCT(connection) *con, MPT_TYPE(event_h
 		if ((len = mpt_message_buf2id(data + slen, ilen, &id)) < 0) {
 			mpt_log(0, _func, MPT_LOG(Error), "%s (%i)",
 			        MPT_tr("bad message length"), (int) ilen);
-			buf->_used = slen;
-			return MPT_ERROR(BadValue);
+			return datagramDone(con, &in, MPT_ERROR(BadValue));
 		}
 		if (!(ans = mpt_command_get(&con->_wait, id))) {
 			mpt_log(0, _func, MPT_LOG(Error), "%s: %s (" PRIx64 ")",
 			        MPT_tr("reply processing failed"), MPT_tr("message not registered"), id);
-			return datagramDone(con, MPT_ERROR(MissingBuffer));
+			return datagramDone(con, &in, MPT_ERROR(MissingBuffer));
 		}
 		msg.base = data + hlen;
 		msg.used = buf->_used - hlen;
@@ -262,9 +272,9 @@ extern int mpt_connection_dispatch(MPT_STRUCT(connection) *con, MPT_TYPE(event_h
 		if ((len = reply(ans->arg, &msg)) < 0) {
 			mpt_log(0, _func, MPT_LOG(Error), "%s (%i)",
 			        MPT_tr("reply processing failed"), len);
-			return datagramDone(con, MPT_ERROR(MissingBuffer));
+			return datagramDone(con, &in, MPT_ERROR(MissingBuffer));
 		}
-		return datagramDone(con, 0);
+		return datagramDone(con, &in, 0);
 	}
 	else {
 		MPT_INTERFACE(metatype) *ctx = 0;
@@ -301,7 +311,7 @@ extern int mpt_connection_dispatch(MPT_STRUCT(connection) *con, MPT_TYPE(event_h
 		if ((ev.reply = rc) && mpt_reply_set(rd, ilen, data) < 0) {
 			mpt_log(0, _func, MPT_LOG(Error), "%s: %s",
 			        MPT_tr("dispatch failed"), MPT_tr("context not ready"));
-			return datagramDone(con, MPT_ERROR(BadOperation));
+			return datagramDone(con, &in, MPT_ERROR(BadOperation));
 		}
 		msg.base = data + hlen;
 		msg.used = buf->_used - hlen;
@@ -318,6 +328,6 @@ extern int mpt_connection_dispatch(MPT_STRUCT(connection) *con, MPT_TYPE(event_h
 			msg.cont = 0;
 			rc->_vptr->reply(rc, &msg);
 		}
-		return datagramDone(con, ret);
+		return datagramDone(con, &in, ret);
 	}
 }
